@@ -78,6 +78,14 @@ benign)
     grep -q '^+++ b/crates/cascette-ribbit/' "$f" && props="$props C15 C13"
     grep -q '^+++ b/crates/cascette-formats/\|^+++ b/crates/cascette-crypto/' "$f" && props="$props C04 C07 C13 C15"
     props=$(echo $props | tr ' ' '\n' | sort -u | tr '\n' ' ')
+    if [ -n "${BENIGN_LEAN:-}" ]; then
+      # lean sets (a full pass over 60 patches x 5-6 properties takes hours): the properties anchored in the crate
+      props=""
+      grep -q '^+++ b/crates/cascette-cache/' "$f" && props="$props C10 C11 C12"
+      grep -q '^+++ b/crates/cascette-client-storage/' "$f" && props="$props C04 C05 C06 C17"
+      grep -q '^+++ b/crates/cascette-protocol/' "$f" && props="$props C13 C14"
+      grep -q '^+++ b/crates/cascette-ribbit/' "$f" && props="$props C15"
+    fi
     out=$("$VERIF_DIR/tools/scratch_check.sh" "$f" $props 2>&1 | grep -E " exit=")
     echo "$out"
     echo "$out" | grep -qv " exit=0 " && fail=1
